@@ -315,11 +315,11 @@ impl Prop for C09 {
 
     fn strategy(_tier: Tier, _shard: u32) -> BoxedStrategy<Case> {
         let up = |k: usize| prop_oneof![Just(k), Just(k + 1), Just(50usize.max(k)), Just(1_000_000usize), Just(1_000_000usize)];
-        let controlled = (1usize..=4, 0usize..=20, proptest::collection::vec(any::<u16>(), 0..=300))
+        let controlled = (prop_oneof![10 => 1usize..=4, 1 => 5usize..=8], prop_oneof![10 => 0usize..=20, 1 => 21usize..=60], proptest::collection::vec(any::<u16>(), 0..=300))
             .prop_flat_map(move |(t, k, choices)| up(k).prop_map(move |upstream| Sub::Controlled { t, k, upstream, choices: choices.clone() }));
-        let real_pipe = (0usize..=4, 0usize..=20, any::<u64>()).prop_flat_map(move |(t, k, chaos)| up(k).prop_map(move |upstream| Sub::RealPipe { t, k, upstream, chaos }));
-        let real_buf = (0usize..=4, 0usize..=20).prop_flat_map(move |(buffer, k)| up(k).prop_map(move |upstream| Sub::RealBuffered { buffer, k, upstream }));
-        let panic = (1usize..=4, 1usize..=12, prop_oneof![Just(0u64), Just(5u64), Just(40u64)]).prop_flat_map(|(t, n, delay_ms)| (0..n).prop_map(move |j| Sub::Panic { t, n, j, delay_ms }));
+        let real_pipe = (prop_oneof![10 => 0usize..=4, 1 => 5usize..=16], prop_oneof![10 => 0usize..=20, 1 => 21usize..=200], any::<u64>()).prop_flat_map(move |(t, k, chaos)| up(k).prop_map(move |upstream| Sub::RealPipe { t, k, upstream, chaos }));
+        let real_buf = (prop_oneof![10 => 0usize..=4, 1 => 5usize..=64], prop_oneof![10 => 0usize..=20, 1 => 21usize..=200]).prop_flat_map(move |(buffer, k)| up(k).prop_map(move |upstream| Sub::RealBuffered { buffer, k, upstream }));
+        let panic = (prop_oneof![10 => 1usize..=4, 1 => 5usize..=8], prop_oneof![10 => 1usize..=12, 1 => 13usize..=60], prop_oneof![Just(0u64), Just(5u64), Just(40u64)]).prop_flat_map(|(t, n, delay_ms)| (0..n).prop_map(move |j| Sub::Panic { t, n, j, delay_ms }));
         prop_oneof![20 => controlled, 5 => real_pipe, 5 => real_buf, 2 => panic]
             .prop_map(|sub| Case { sub })
             .boxed()
